@@ -121,7 +121,7 @@ class Engine:
             finally:
                 self.spec_mode -= 1
             goal = z3.Or(cond, a)
-        self.oblige(st, f"exc@L{lineno}:{what}", "exc", goal, lineno, detail=f"{excname} impossible")
+        self.oblige(st, f"exc@L{lineno}:{excname}:{what}", "exc", goal, lineno, detail=f"{excname} impossible")
         if not self.guards:
             st.pc.append(cond)
 
@@ -145,6 +145,7 @@ class Engine:
     def as_int(self, v: V):
         if isinstance(v, VInt): return v.t
         if isinstance(v, VBool): return z3.If(v.t, z3.IntVal(1), z3.IntVal(0))
+        if isinstance(v, VOpt): return self.as_int(v.val)     # None-ness is a separate safety condition
         raise Unsupported(f"int expected, got {v!r}")
 
     def to_seq(self, v: V) -> VSeq:
@@ -154,7 +155,7 @@ class Engine:
 
             def at(i, items=items):
                 if not items:
-                    raise Unsupported("index into empty tuple")
+                    return VInt(0)        # out of range for every index; value is irrelevant
                 if z3.is_int_value(z3.simplify(i)):
                     k = z3.simplify(i).as_long()
                     if 0 <= k < len(items):
@@ -313,7 +314,7 @@ class Engine:
         if c.ensures:
             env2 = dict(env)
             env2["result"] = res
-            facts.append(self.truthy(self.ev_clause(c.ensures, env2)))
+            facts.append(self.truthy(self.ev_clause(c.ensures_text(), env2)))
         target = st.pc if not self.guards else st.pc
         for f in facts:
             if self.guards:
@@ -325,6 +326,8 @@ class Engine:
     def coerce(self, v: V, t: T) -> V:
         if isinstance(t, TInt) and isinstance(v, VBool): return VInt(self.as_int(v))
         if isinstance(t, TBool) and isinstance(v, VInt): return v
+        if isinstance(t, TSeq) and isinstance(v, VTup) and not v.items:
+            return VSeq(v.kind, 0, lambda i, t=t: self.fac.mk(t.elt, "empty.el", [i]), t.elt)
         if isinstance(t, TSeq) and isinstance(v, VTup):
             s = self.to_seq(v)
             return VSeq(s.kind, s.length, s.at, t.elt)
@@ -488,6 +491,12 @@ class Engine:
                 raise Unsupported(f"`is` on {a!r}/{b!r}")
             return r if isinstance(op, ast.Is) else z3.Not(r)
         if isinstance(op, (ast.Lt, ast.LtE, ast.Gt, ast.GtE)):
+            if isinstance(a, VOpt):
+                self.safety(st, z3.Not(a.is_none), "TypeError", lineno, "order-None")
+                a = a.val
+            if isinstance(b, VOpt):
+                self.safety(st, z3.Not(b.is_none), "TypeError", lineno, "order-None")
+                b = b.val
             if isinstance(a, (VInt, VBool)) and isinstance(b, (VInt, VBool)):
                 x, y = self.as_int(a), self.as_int(b)
                 return {ast.Lt: x < y, ast.LtE: x <= y, ast.Gt: x > y, ast.GtE: x >= y}[type(op)]
@@ -807,6 +816,25 @@ class Engine:
                  res.length == cnt(it.length)]
         st.pc.extend(facts)
         self.filter_cnt = cnt
+        for h in (self.c.path_hints or {}).get("filter_lemmas", []):
+            # inductive fact about the counting function, proved here (base + step), then assumed
+            def body_at(ix):
+                env = dict(st.env)
+                env[h["var"]] = VInt(ix)
+                env["_cnt"] = VFunc(builtin="_cnt", name="_cnt")
+                self._cnt_apply = lambda a: VInt(cnt(self.as_int(a)))
+                return self.truthy(self.ev_clause(h["body"], env))
+            lo = self.as_int(self.ev_clause(h["lo"], st.env))
+            hi = self.as_int(self.ev_clause(h["hi"], st.env))
+            self.oblige(st, f"filter-lemma-base@L{node.lineno}", "lemma", z3.Implies(lo < hi, body_at(lo)), node.lineno)
+            j = z3.Int(fresh_name("fl_j"))
+            self.oblige(st, f"filter-lemma-step@L{node.lineno}", "lemma",
+                        z3.Implies(z3.And(j >= lo, j + 1 < hi, body_at(j)), body_at(j + 1)), node.lineno)
+            b = self.bound_var()
+            try:
+                st.pc.append(z3.ForAll([b], z3.Implies(z3.And(b >= lo, b < hi), body_at(b))))
+            finally:
+                self.unbind()
         return res
 
     # calls ---------------------------------------------------------------------
@@ -826,6 +854,22 @@ class Engine:
         if isinstance(node.func, ast.Name) and node.func.id == "ite" and len(node.args) == 3:
             c = self.truthy(self.ev(node.args[0], st))
             return self.merge(c, self.ev(node.args[1], st), self.ev(node.args[2], st))
+        if isinstance(node.func, ast.Name) and node.func.id == "count_eq" and len(node.args) == 3:
+            seq = self.to_seq(self.ev(node.args[0], st))
+            return self.count_eq(seq, self.ev(node.args[1], st), self.as_int(self.ev(node.args[2], st)))
+        if isinstance(node.func, ast.Name) and node.func.id in ("post", "pre") and node.args \
+                and isinstance(node.args[0], ast.Constant):
+            cc = self.reg.by_name(node.args[0].value)
+            if cc is None:
+                raise Unsupported(f"post/pre of unknown contract {node.args[0].value}")
+            env = {k.arg: self.ev(k.value, st) for k in node.keywords}
+            for pn, tn in cc.types.items():
+                if pn in env:
+                    env[pn] = self.coerce(env[pn], parse_type(tn))
+            if "result" in env and cc.returns != "Any":
+                env["result"] = self.coerce(env["result"], parse_type(cc.returns))
+            text = cc.requires if node.func.id == "pre" else (cc.ensures_text() or "True")
+            return VBool(self.truthy(self.ev_clause(text, env)))
         # str.join
         if isinstance(node.func, ast.Attribute) and node.func.attr == "join" and len(node.args) == 1:
             sep = self.ev(node.func.value, st)
@@ -839,6 +883,32 @@ class Engine:
         args = [self.ev(a, st) for a in node.args]
         kwargs = {k.arg: self.ev(k.value, st) for k in node.keywords if k.arg}
         return self.apply(f, args, kwargs, st, node.lineno)
+
+    def _vkey(self, v: V) -> str:
+        if isinstance(v, (VInt, VBool, VNStr, VRec, VAny)):
+            return v.t.sexpr()
+        if isinstance(v, VSeq):
+            return "seq(" + v.length.sexpr() + "," + self._vkey(v.at(z3.Int("PROBE"))) + ")"
+        if isinstance(v, VTup):
+            return "tup(" + ",".join(self._vkey(x) for x in v.items) + ")"
+        return repr(v)
+
+    def count_eq(self, seq: VSeq, x: V, k) -> V:
+        """number of indices i < k (and < len) with seq[i] == x: an uninterpreted
+        function with its recursive definition as axioms"""
+        if not hasattr(self, "_cnt_fns"):
+            self._cnt_fns = {}
+        key = (self._vkey(seq), self._vkey(x))
+        fn = self._cnt_fns.get(key)
+        if fn is None:
+            fn = z3.Function(fresh_name("count_eq"), z3.IntSort(), z3.IntSort())
+            self._cnt_fns[key] = fn
+            i = z3.Int("cnt_i")
+            hit = z3.And(i < seq.length, self.eq(self.elem(seq, i), x))
+            self.axioms += [fn(0) == 0,
+                            z3.ForAll([i], z3.Implies(i >= 0, fn(i + 1) == fn(i) + z3.If(hit, 1, 0))),
+                            z3.ForAll([i], z3.Implies(i >= 0, z3.And(fn(i) >= 0, fn(i) <= i)))]
+        return VInt(fn(k))
 
     def quantifier(self, node, st):
         var = node.args[0].id
@@ -992,7 +1062,7 @@ class Engine:
                 self.oblige(st, f"pre@L{lineno}:{cls}.__init__", "pre@callsite", pre, lineno)
             if init.ensures:
                 env["result"] = obj
-                fact = self.truthy(self.ev_clause(init.ensures, env))
+                fact = self.truthy(self.ev_clause(init.ensures_text(), env))
                 st.pc.append(z3.Implies(z3.And(*self.guards), fact) if self.guards else fact)
             return obj
         # dataclass-style: positional args are the fields in declaration order
@@ -1272,10 +1342,11 @@ class Engine:
                 goal_parts = []
                 if c.result_is is not None:
                     goal_parts.append(self.eq(val, self.coerce(self.ev_clause(c.result_is, self.entry_env), rt) if rt else self.ev_clause(c.result_is, self.entry_env)))
-                if c.ensures:
-                    goal_parts.append(self.truthy(self.ev_clause(c.ensures, env2)))
                 if goal_parts:
                     self.obls.append(Obligation(f"post#{idx}@L{o.lineno}", "post", o.st.pc, z3.And(*goal_parts), o.lineno))
+                for cname, ctext in c.ensures_items():
+                    nm = f"post#{idx}@L{o.lineno}" + (f":{cname}" if cname else "")
+                    self.obls.append(Obligation(nm, "post", o.st.pc, self.truthy(self.ev_clause(ctext, env2)), o.lineno))
                 o.value = val
             else:
                 allowed = c.raises.get(o.exc)
@@ -1424,7 +1495,12 @@ def _b_reduce(e: Engine, args, kw, st, ln):
     raise Unsupported("reduce (fold schema not provided for this call)")
 
 
+def _b_cnt(e, args, kw, st, ln):
+    return e._cnt_apply(args[0])
+
+
 BUILTINS: Dict[str, Callable] = {
+    "_cnt": _b_cnt,
     "len": _b_len, "tuple": _b_tuple, "list": _b_list, "int": _b_int, "bool": _b_bool, "ord": _b_ord,
     "chr": _b_chr, "min": _b_minmax("min"), "max": _b_minmax("max"), "abs": _b_abs,
     "any": _b_anyall("any"), "all": _b_anyall("all"), "isinstance": _b_isinstance, "reduce": _b_reduce,
